@@ -7,7 +7,12 @@
 package c18
 
 import (
+	"bytes"
+	"encoding/json"
 	"fmt"
+	"os/exec"
+	"sync"
+	"syscall"
 	"math/rand"
 	"os"
 	"path/filepath"
@@ -162,6 +167,223 @@ func runPlan(b *tv.Batch, p plan) (int, int) {
 	return tr, r.step
 }
 
+// ---- a faithful crash: the Writes run in a CHILD process that kills itself (SIGKILL) at the chosen step point, so
+// nothing after that point runs - no deferred clean-up either.  The child records its events to a file.
+
+func TestChildC18(t *testing.T) {
+	if os.Getenv("VERIF_C18_CHILD") == "" {
+		t.Skip("helper process")
+	}
+	var p plan
+	if err := json.Unmarshal([]byte(os.Getenv("VERIF_C18_PLAN")), &p); err != nil {
+		t.Fatal(err)
+	}
+	root := os.Getenv("VERIF_C18_ROOT")
+	out, err := os.OpenFile(os.Getenv("VERIF_C18_OUT"), os.O_CREATE|os.O_WRONLY|os.O_APPEND, 0o644)
+	if err != nil {
+		t.Fatal(err)
+	}
+	emit := func(name string, m tv.M) {
+		if m == nil {
+			m = tv.M{}
+		}
+		m["ev"] = name
+		j, _ := json.Marshal(m)
+		out.Write(append(j, '\n')) // unbuffered: must survive the SIGKILL
+	}
+	r := &runner{root: root, target: filepath.Join(root, "tgt"), verDirs: map[string]int{}, crashAt: map[int]bool{}}
+	kill := p.Crashes[0]
+	dir.VerifHook = func(point, arg string) {
+		if point == "mknew" {
+			r.verDirs[arg] = r.curW
+			emit("_ver", tv.M{"dir": arg, "w": r.curW})
+		}
+		emit("obs", r.observe())
+		idx := r.step
+		r.step++
+		if idx == kill {
+			syscall.Kill(os.Getpid(), syscall.SIGKILL)
+			select {}
+		}
+	}
+	log := logger.NewLogger("verif-c18-child")
+	log.SetOutputLevel(logger.FatalLevel)
+	d := dir.New(dir.Options{Log: log, Target: r.target})
+	for i, set := range p.Sets {
+		w := i + 1
+		r.curW = w
+		if set == nil {
+			set = []string{}
+		}
+		emit("begin", tv.M{"w": w, "files": set})
+		files := map[string][]byte{}
+		for _, n := range set {
+			files[n] = []byte(content(w, n))
+		}
+		werr := d.Write(files)
+		emit("obs", r.observe())
+		emit("ret", tv.M{"w": w, "err": werr != nil, "versions": r.versions(), "errtext": fmt.Sprint(werr)})
+		if werr != nil {
+			break
+		}
+	}
+	emit("_done", nil)
+}
+
+// runPlanKilled: like runPlan with one crash, but the crash is a real process death.
+func runPlanKilled(b *tv.Batch, p plan) (int, bool) {
+	root, err := os.MkdirTemp("", "vc18k-")
+	if err != nil {
+		panic(err)
+	}
+	defer os.RemoveAll(root)
+	outPath := filepath.Join(root, "child-events.ndjson")
+	pj, _ := json.Marshal(p)
+	cmd := exec.Command(os.Args[0], "-test.run=^TestChildC18$", "-test.count=1")
+	cmd.Env = append(os.Environ(), "VERIF_C18_CHILD=1", "VERIF_C18_PLAN="+string(pj), "VERIF_C18_ROOT="+root, "VERIF_C18_OUT="+outPath)
+	_ = cmd.Run() // the child is expected to die by SIGKILL
+	tr := b.Start(tv.M{"plan": p, "crash": "SIGKILL in a child process"})
+	r := &runner{b: b, root: root, target: filepath.Join(root, "tgt"), verDirs: map[string]int{}, crashAt: map[int]bool{}}
+	data, _ := os.ReadFile(outPath)
+	lastBegin, done := 0, false
+	for _, line := range bytes.Split(data, []byte("\n")) {
+		if len(line) == 0 {
+			continue
+		}
+		var m tv.M
+		if json.Unmarshal(line, &m) != nil {
+			continue
+		}
+		switch m["ev"] {
+		case "_ver":
+			r.verDirs[m["dir"].(string)] = int(m["w"].(float64))
+			continue
+		case "_done":
+			done = true
+			continue
+		case "begin":
+			lastBegin = int(m["w"].(float64))
+		}
+		name := m["ev"].(string)
+		delete(m, "ev")
+		b.Ev(name, m)
+	}
+	if done {
+		return tr, true // the crash index was beyond the last step: an ordinary complete run
+	}
+	if lastBegin == 0 {
+		return tr, false
+	}
+	b.Ev("crash", nil)
+	// recovery in this process: fresh Dir, remaining Writes, observed at every step point, no further crash
+	dir.VerifHook = r.hook
+	defer func() { dir.VerifHook = nil }()
+	log := logger.NewLogger("verif-c18")
+	log.SetOutputLevel(logger.FatalLevel)
+	d := dir.New(dir.Options{Log: log, Target: r.target})
+	for i := lastBegin; i < len(p.Sets); i++ {
+		w := i + 1
+		r.curW = w
+		set := p.Sets[i]
+		if set == nil {
+			set = []string{}
+		}
+		b.Ev("begin", tv.M{"w": w, "files": set})
+		_, werr := r.write(d, w, set)
+		b.Ev("obs", r.observe())
+		b.Ev("ret", tv.M{"w": w, "err": werr != nil, "versions": r.versions(), "errtext": fmt.Sprint(werr)})
+		if werr != nil {
+			break
+		}
+	}
+	return tr, true
+}
+
+// readerStress: a reader resolves the target continuously while Writes run (not only at the step points).
+func readerStress(b *tv.Batch, writes int) int {
+	root, err := os.MkdirTemp("", "vc18r-")
+	if err != nil {
+		panic(err)
+	}
+	defer os.RemoveAll(root)
+	var mu sync.Mutex // orders the reader's observations with begin/ret and protects verDirs
+	r := &runner{b: b, root: root, target: filepath.Join(root, "tgt"), verDirs: map[string]int{}, crashAt: map[int]bool{}}
+	tr := b.Start(tv.M{"scenario": "concurrent reader", "writes": writes})
+	dir.VerifHook = func(point, arg string) {
+		if point == "mknew" {
+			mu.Lock()
+			r.verDirs[arg] = r.curW
+			mu.Unlock()
+		}
+	}
+	defer func() { dir.VerifHook = nil }()
+	stop := make(chan struct{})
+	var wg sync.WaitGroup
+	wg.Add(1)
+	polls := 0
+	go func() {
+		defer wg.Done()
+		last := ""
+		for {
+			select {
+			case <-stop:
+				return
+			default:
+			}
+			mu.Lock()
+			// the reader is not atomic with the writer: only an observation during which the link did not change counts
+			var o tv.M
+			for try := 0; try < 8; try++ {
+				d1, _ := os.Readlink(r.target)
+				o = r.observe()
+				d2, _ := os.Readlink(r.target)
+				if d1 == d2 {
+					break
+				}
+				o = nil
+			}
+			if o == nil {
+				mu.Unlock()
+				continue
+			}
+			key := fmt.Sprint(o)
+			if key != last { // record changes only
+				b.Ev("obs", o)
+				last = key
+			}
+			mu.Unlock()
+			polls++
+		}
+	}()
+	log := logger.NewLogger("verif-c18")
+	log.SetOutputLevel(logger.FatalLevel)
+	d := dir.New(dir.Options{Log: log, Target: r.target})
+	sets := [][]string{{"a"}, {"a", "b"}, {}, {"b", "c"}, {"c"}}
+	for i := 0; i < writes; i++ {
+		w := i + 1
+		set := sets[i%len(sets)]
+		mu.Lock()
+		r.curW = w
+		b.Ev("begin", tv.M{"w": w, "files": set})
+		mu.Unlock()
+		files := map[string][]byte{}
+		for _, n := range set {
+			files[n] = []byte(content(w, n))
+		}
+		werr := d.Write(files)
+		mu.Lock()
+		b.Ev("obs", r.observe())
+		b.Ev("ret", tv.M{"w": w, "err": werr != nil, "versions": r.versions(), "errtext": fmt.Sprint(werr)})
+		mu.Unlock()
+		if werr != nil {
+			break
+		}
+	}
+	close(stop)
+	wg.Wait()
+	return tr + 0*polls
+}
+
 func TestCheck(t *testing.T) {
 	e := ev.New("C18", "fault_enumeration")
 	defer func() {
@@ -241,6 +463,36 @@ func TestCheck(t *testing.T) {
 			}
 		}
 	}
+	// real process deaths (SIGKILL in a child) at every step point of short sequences: nothing after the crash point
+	// runs, deferred clean-up included
+	killed := 0
+	for _, sq := range seqs {
+		if len(sq) > 2 || (!ev.Thorough() && len(sq) == 2 && rng.Intn(3) != 0) {
+			continue
+		}
+		steps := 0
+		for _, st := range sq {
+			steps += 5 + len(st)
+		}
+		for c := 0; c < steps; c++ {
+			p := plan{Sets: sq, Crashes: []int{c}}
+			if _, ok := runPlanKilled(b, p); ok {
+				plans = append(plans, p)
+				runs++
+				killed++
+				e.Nontrivial("killed " + fmt.Sprint(p))
+			} else {
+				plans = append(plans, p)
+			}
+		}
+	}
+	// a reader polling the target continuously while 60 (600) Writes run
+	for i := 0; i < ev.Pick(4, 20); i++ {
+		readerStress(b, ev.Pick(60, 300))
+		plans = append(plans, plan{Sets: [][]string{{"reader-stress"}}})
+		runs++
+	}
+	e.Set("killed_child_runs", int64(killed))
 	e.Set("evaluations", int64(runs))
 	e.Set("rule", "every case = (sequence of 1..N Write file sets over {∅,{a},{a,b},{b,c},{c}}, set of step points at which the process dies); crash points enumerated exhaustively for one crash (every step point of every Write of every sequence) and for two crashes in the thorough tier (sampled in quick); the filesystem is projected after every step; non-trivial = at least one crash or at least two Writes; distinct by (sets, crash points)")
 	for _, i := range []int{1, len(plans) / 2, len(plans) - 1} {
